@@ -152,6 +152,7 @@ class SurfaceMesh(Mesh):
     
     def _compute_interior_boundary_vertices(self):
         self._boundary_vertices = set()
+        self.vertices.delete_attribute("border") # never reuse a same-named attribute: its old values would be read as border flags
         self._is_vertex_on_border = self.vertices.create_attribute("border", bool)
         for e in self.boundary_edges:
             a,b = self.edges[e]
